@@ -22,8 +22,33 @@ def direction(rate):
     return 1 if b > a else -1
 
 
+def _lossy_cast(x):
+    """A cast to a dtype other than float64 somewhere in the fresh/asarray wrappers of a pooled part."""
+    while isinstance(x, App) and x.fn in ("fresh", "asarray") and x.args:
+        if x.fn == "fresh" and x.kwd("dtype") in (Const("other"), Const("int")):
+            return True
+        x = x.args[0]
+    return False
+
+
+def _pooled_parts(t):
+    """Parts of sort(concat(...)) with selections `ite(c, x, y)` / `ite(c, y, x)` (the larger / smaller class) resolved to {x, y}."""
+    if not (isinstance(t, App) and t.fn == "sort" and isinstance(t.args[0], App) and t.args[0].fn == "concat"):
+        return None
+    raw = list(t.args[0].args)
+    parts = [strip_fresh(x) for x in raw]
+    if len(parts) == 2 and all(isinstance(p, App) and p.fn == "ite" and len(p.args) == 3 for p in parts) \
+            and parts[0].args[0] == parts[1].args[0] and parts[0].args[1] == parts[1].args[2] and parts[0].args[2] == parts[1].args[1]:
+        parts = [strip_fresh(parts[0].args[1]), strip_fresh(parts[0].args[2])]
+    return parts, any(_lossy_cast(x) for x in raw)
+
+
 def population_verdict(term, which):
     """True / False (understood and wrong) / None (not understood)."""
+    pp = _pooled_parts(strip_fresh(term)) if which not in ("pos", "neg") else None
+    if pp is not None and sorted(p.key for p in pp[0]) == sorted([POS.key, NEG.key]):
+        # both classes pooled; a class cast to the other's dtype on the way (np.insert keeps the dtype of its first argument) is not the pooled scores
+        return not pp[1]
     if is_population(term, which):
         return True
     t = strip_fresh(term)
